@@ -1,7 +1,8 @@
 (* C19 -- Static analysis reports everything a render can touch.
    Model: StaticAnalysis.v (analyze = the repaired _visit walk; exec_prog = the tracing interpreter, over
-   output/echo, assign, capture, increment/decrement, for/else and tablerow over paths and ranges, if/unless/
-   elsif/else, case/when/else, cycle, liquid, with, macro/call, include, render, paths with nested paths;
+   output/echo, assign, capture, increment/decrement, for/else and tablerow over paths and ranges with limit/
+   offset (also continue)/reversed/cols, if/unless/
+   elsif/else, case/when/else, cycle, liquid, with, macro/call, include, render, paths with paths nested to any depth;
    analyze_old = the walk before the three fix: commits).  Proofs: StaticAnalysis_Proofs.v. *)
 From LiquidVerif Require Import Prelude StaticAnalysis StaticAnalysis_Proofs.
 
@@ -36,6 +37,25 @@ Theorem C19_globals_sound :
     analyze P fa = Ok A -> In (ERead p true false) (d_trace (exec_prog P fe data)) -> In p (a_globals A).
 Proof. exact globals_sound. Qed.
 Print Assumptions C19_globals_sound.
+
+(* The arguments of a for / tablerow loop (limit, offset, cols) are among the expressions the walk analyses,
+   each of them whichever of the others are present; with C19_variables_sound: every argument expression
+   a render evaluates is reported. *)
+Theorem C19_loop_arguments_analysed :
+  forall (x : str) (it : iter_src) (la : loop_args) (body els : list node) (a : atom),
+    la_limit la = Some a \/ la_offset la = Some (OffAtom a) \/ la_cols la = Some a ->
+    In (plain a) (n_exprs (NFor x it la body els)) /\ In (plain a) (n_exprs (NTablerow x it la body)).
+Proof. exact loop_arguments_analysed. Qed.
+Print Assumptions C19_loop_arguments_analysed.
+
+(* A path used as a segment of another path, and every path nested in it at any depth, is among the paths the
+   walk analyses for the outer one; with C19_variables_sound and the interpreter, which evaluates the innermost
+   path first: the nested path is reported and read on its own at every level. *)
+Theorem C19_nested_paths_analysed :
+  forall (r : str) (segs : list seg) (q : path),
+    In (SSub q) segs -> incl (all_paths q) (atom_paths (AVar (Path r segs))).
+Proof. exact nested_paths_analysed. Qed.
+Print Assumptions C19_nested_paths_analysed.
 
 (* The walk as it was before the fixes violates every clause (witnesses; the same programs are seeds of the harness). *)
 (* a partial first met while its parent is revisited for globals only is never visited in full *)
@@ -87,8 +107,31 @@ Proof. vm_compute. split; reflexivity. Qed.
    liquid, decrement and a nested path is analysed and rendered; the nested path is reported and read on its own *)
 Example C19_wide_language_example :
   exists A, analyze W_wide 20 = Ok A /\
-    In {| p_root := q_b; p_segs := [SKey q_k] |} (a_vars A) /\
-    In (ERead {| p_root := q_b; p_segs := [SKey q_k] |} true false) (d_trace (exec_prog W_wide 20 W_wide_data)) /\
+    In (Path q_b [SKey q_k; SSub (pv q_c0)]) (a_vars A) /\
+    In (ERead (Path q_b [SKey q_k; SSub (pv q_c0)]) true false) (d_trace (exec_prog W_wide 20 W_wide_data)) /\
     length (filter (event_eqb (ERead (pv q_a) false false)) (d_trace (exec_prog W_wide 20 W_wide_data))) = 3 /\
     d_status (exec_prog W_wide 20 W_wide_data) = Running.
 Proof. exact wide_language_example. Qed.
+
+(* loop arguments: limit, offset and cols given as paths are all reported; with limit 1 and offset 1 the tablerow
+   reads xs, lim, off, c and renders one item, and a following loop with offset: continue resumes at the third item;
+   a limit that int() rejects fails the render *)
+Example C19_loop_arguments_example :
+  exists A, analyze W_loop 20 = Ok A /\
+    In (pv q_lim) (a_vars A) /\ In (pv q_off) (a_vars A) /\ In (pv q_c) (a_vars A) /\
+    map (fun e => match e with ERead p _ _ => p_root p | _ => [] end)
+        (filter (fun e => match e with ERead _ _ _ => true | _ => false end) (rev (d_trace (exec_prog W_loop 20 (W_loop_data (VInt 1))))))
+      = [q_xs; q_lim; q_off; q_c; q_x; q_xs; q_x] /\
+    d_status (exec_prog W_loop 20 (W_loop_data (VStr q_x))) = Halted.
+Proof. exact loop_arguments_example. Qed.
+
+(* a[b.k[c]] inside W_wide: three levels, each reported; the reads come innermost first (the trace is newest first) *)
+Example C19_nested_paths_example :
+  exists A, analyze W_wide 20 = Ok A /\
+    forallb (fun p => existsb (path_eqb p) (a_vars A))
+            [pv q_c0; Path q_b [SKey q_k; SSub (pv q_c0)]; Path q_a [SSub (Path q_b [SKey q_k; SSub (pv q_c0)])]] = true /\
+    map (fun e => match e with ERead p _ _ => p_root p | _ => [] end)
+        (firstn 4 (filter (fun e => match e with ERead _ _ _ => true | _ => false end)
+                          (d_trace (exec_prog W_wide 20 W_wide_data))))
+      = [q_z; q_a; q_b; q_c0].
+Proof. exact nested_paths_example. Qed.
